@@ -513,7 +513,10 @@ func init() {
 	reg("C16", HarnessDef{ID: "H16.3", Spec: HarnessSpec{Name: "vH_C16_nonce_pattern", Pkg: "pkg/cipher", LoopBound: 40, TimeoutS: 240, Par: 4,
 		Redirects: map[string]string{"github.com/enfein/mieru/v3/pkg/common.ToPrintableChar": "vStubToPrintable", "github.com/enfein/mieru/v3/pkg/common.ToCommon64Set": "vStubToCommon64"}},
 		What:   "real aeadBlockCipher.SetNoncePattern / Clone / newNonceTo / nonceRewriteLen for every nonce type, length range and applyToAllUDPPacket setting, on the cipher and on its Clone (both TCP sending ciphers are clones): the configured alphabet is applied once from byte 0 over a prefix whose length lies in [minLen, maxLen]; a fixed-type nonce starts with one of the configured prefixes - on a clone too; a stateless cipher re-applies the pattern to later packets iff applyToAllUDPPacket",
-		Bounds: "minLen <= maxLen <= 24, one or two 4-byte fixed prefixes", Outside: "the alphabet rewriters ToPrintableChar / ToCommon64Set are replaced by recorders (which range, which alphabet); proto.Clone modelled as a deep copy"})
+		Bounds: "minLen <= maxLen <= 24, one 4-byte fixed prefix (two: H16.3b, thorough)", Outside: "the alphabet rewriters ToPrintableChar / ToCommon64Set are replaced by recorders (which range, which alphabet); proto.Clone modelled as a deep copy"})
+	reg("C16", HarnessDef{ID: "H16.3b", Tier: "thorough", Spec: HarnessSpec{Name: "vH_C16_nonce_pattern2", Pkg: "pkg/cipher", LoopBound: 40, TimeoutS: 900, Par: 4,
+		Redirects: map[string]string{"github.com/enfein/mieru/v3/pkg/common.ToPrintableChar": "vStubToPrintable", "github.com/enfein/mieru/v3/pkg/common.ToCommon64Set": "vStubToCommon64"}},
+		What: "same as H16.3 with two fixed prefixes (the choice among them symbolic)", Bounds: "two 4-byte prefixes", Outside: "as H16.3"})
 	reg("C20", HarnessDef{ID: "H20.1", Spec: HarnessSpec{Name: "vH_C20_store_hashes_passwords", Pkg: "pkg/appctl/appctlcommon", LoopBound: 40, TimeoutS: 120, Par: 2},
 		What:   "real HashUserPasswords(users, false) - what StoreServerConfig runs right before marshalling - on users with every mix of name / password / hashedPassword fields set or unset (incl. both): afterwards NO user carries a non-empty plaintext password, and a user that had one has a hashed password; keepPlaintext leaves the client's password in place",
 		Bounds: "2 users, strings <= 2 bytes", Outside: "SHA-256 uninterpreted; the marshalling and file write themselves (reflection / I/O)"})
